@@ -5,13 +5,15 @@
    Proved here for ALL candidate lists, profiles, totals, reported winners and for EVERY difficulty function
    dfun : winner tally -> loser tally -> total -> Q (antitone or not; the two shipped ones, cp_q / bp_q, are shown
    antitone in the margin in RaireCheck_proofs.cp_q_antitone / bp_q_antitone): the executable `opt` IS that minimum.
-   The search algorithm (branch-and-bound with diving in compute_raire_assertions) is not modelled or proved;
+   The search algorithm (branch-and-bound with diving in compute_raire_assertions) is modelled (RaireAlgo.raire, tied
+   output-for-output to the code) and proved SOUND (PC04.v C04_algo_output_checked; below: its largest difficulty is
+   >= opt), but its OPTIMALITY (largest difficulty <= opt) is not proved about the model;
    on every run each output of the implementation is compared with this verified optimum
    (harness/c15.py -> Run_Raire.agree_c15: exactly when a Fraction-valued difficulty function is passed to the real
    code, within 2^-30 for the shipped float functions), and C04's verified check_output shows the returned set is
    itself a sufficient set of true assertions, so by the second clause below its largest difficulty can only be
    >= opt; equality is what the run-time comparison establishes per output (DESIGN section 4 table, row C04/C15). *)
-From SV Require Import RaireCheck RaireCheck_proofs.
+From SV Require Import RaireCheck RaireCheck_proofs RaireAlgo RaireAlgo_proofs RaireAlgo_inv.
 Open Scope nat_scope.
 
 Theorem C15_opt_is_minimax : forall (dfun : nat -> nat -> nat -> Q) cands p tot winner,
@@ -38,6 +40,31 @@ Theorem C15_opt_least_threshold : forall (dfun : nat -> nat -> nat -> Q) cands p
    sufficient cands winner (filter (fun a => Qle_bool (diff_of dfun p tot a) d) (all_true cands p))).
 Proof. exact opt_le_iff. Qed.
 Print Assumptions C15_opt_least_threshold.
+
+(* ---- about the model of the search itself (RaireAlgo.raire, tied output-for-output to compute_raire_assertions by
+   Run_Raire.agree_algo): every difficulty it reports is the difficulty function applied to the reported tallies, and a
+   non-empty result is a sufficient set of true assertions, so an audit is possible (opt <> Top) and the largest
+   reported difficulty is AT LEAST the optimum.  The other inequality (the search never does worse than opt, i.e.
+   the branch-and-bound bookkeeping `lowerbound <= opt`) is NOT proved about the model; it is established per output
+   on every run by comparing the implementation's largest difficulty with the verified `opt` (agree_c15). *)
+Theorem C15_algo_difficulties :
+  forall fuel dfun cands p tot winner hint out,
+    raire fuel dfun cands p tot winner hint = Some out ->
+    forall a tw tl d, In (a, tw, tl, d) out -> d = dfun tw tl tot.
+Proof. exact raire_model_difficulties. Qed.
+Print Assumptions C15_algo_difficulties.
+
+Theorem C15_algo_max_ge_opt_partial :
+  forall fuel dfun cands p tot winner hint out,
+    NoDup cands ->
+    raire fuel dfun cands p tot winner hint = Some out -> out <> [] ->
+    match opt dfun cands p tot winner with
+    | Val d0 => exists a tw tl d, In (a, tw, tl, d) out /\ (d0 <= d)%Q
+    | Top => False
+    | Bot => True
+    end.
+Proof. exact raire_model_max_ge_opt. Qed.
+Print Assumptions C15_algo_max_ge_opt_partial.
 
 (* ---- non-vacuity *)
 Definition ex_cands : list cand := [0; 1; 2].
